@@ -154,4 +154,25 @@ PROPS = {
             {"pkg": T, "test": "TestVerifC11", "quick": (16, 800), "thorough": (16, 60000)},
         ],
     },
+    "C16": {
+        "level": "exploration",
+        "claim": ("(a) generated ROA sets (nested/equal prefixes, different max-length/AS/source, AS 0, IPv4 and IPv6, with "
+                  "deletions) x routes (prefix lengths around max-length; AS_PATH empty, ending in SEQUENCE, in AS_SET, "
+                  "confederation-only) are validated by ROATable.Validate and by the policy condition and compared with a "
+                  "brute-force RFC 6811 reference; (b) generated RTR PDU sequences per cache (cache response with "
+                  "announce/withdraw incl. duplicates and unknown withdrawals, end of data with same/new session id, serial "
+                  "notify, cache reset, error report, malformed PDU, disconnect, lifetime timeout, server removal, reset) over "
+                  "1-3 caches are fed to the ROA manager and the table content and per-cache record counters are compared with "
+                  "a transactional model after every operation."),
+        "note": ("The RTR TCP client loop is bypassed (events are injected white-box); what a reset-by-address does to learned "
+                 "records before resynchronisation is not asserted (either outcome adopted)."),
+        "technique": "property-based testing (rapid): brute-force reference (a), model-based history testing (b)",
+        "rule": ("(a) non-trivial when a route has >=2 covering ROAs not all of which match; (b) non-trivial when a completed "
+                 "response is applied on top of a non-empty committed set (incremental update); distinct by case hash"),
+        "assumptions": ["prefix PDUs only occur between Cache Response and End of Data"],
+        "units": [
+            {"pkg": T, "test": "TestVerifC16", "quick": (8, 20000), "thorough": (16, 1000000)},
+            {"pkg": S, "test": "TestVerifC16_rtr", "quick": (8, 8000), "thorough": (16, 400000)},
+        ],
+    },
 }
